@@ -807,21 +807,70 @@ func (fc *FnCtx) resolveType(text string, pkg *types.Package) types.Type {
 	if pkg != nil {
 		key = pkg.Path() + "::" + text
 	}
-	if t, ok := fc.eng.typeCache[key]; ok {
+	// a type parameter of the generic receiver of the function under verification (e.g. T in TKeyLocker[T])
+	if fc.fn != nil && !strings.ContainsAny(text, ".[]* ") {
+		if sig, ok := fc.fn.Type().(*types.Signature); ok {
+			if tps := sig.RecvTypeParams(); tps != nil {
+				for i := 0; i < tps.Len(); i++ {
+					if tps.At(i).Obj().Name() == text {
+						return tps.At(i)
+					}
+				}
+			}
+			if tps := sig.TypeParams(); tps != nil {
+				for i := 0; i < tps.Len(); i++ {
+					if tps.At(i).Obj().Name() == text {
+						return tps.At(i)
+					}
+				}
+			}
+		}
+	}
+	generic := false
+	if fc.fn != nil {
+		if sig, ok := fc.fn.Type().(*types.Signature); ok {
+			generic = (sig.RecvTypeParams() != nil && sig.RecvTypeParams().Len() > 0) || (sig.TypeParams() != nil && sig.TypeParams().Len() > 0)
+		}
+	}
+	if t, ok := fc.eng.typeCache[key]; ok && !generic {
 		if t == nil {
 			fc.fail(token.NoPos, "cannot resolve type %q", text)
 		}
 		return t
 	}
 	t := fc.resolveType0(text, pkg)
-	fc.eng.typeCache[key] = t
+	if !generic {
+		fc.eng.typeCache[key] = t
+	}
 	if t == nil {
 		fc.fail(token.NoPos, "cannot resolve type %q", text)
 	}
 	return t
 }
 
+func (fc *FnCtx) typeParamNamed(text string) types.Type {
+	if fc.fn == nil || strings.ContainsAny(text, ".[]* ") {
+		return nil
+	}
+	if sig, ok := fc.fn.Type().(*types.Signature); ok {
+		for _, tps := range []*types.TypeParamList{sig.RecvTypeParams(), sig.TypeParams()} {
+			if tps == nil {
+				continue
+			}
+			for i := 0; i < tps.Len(); i++ {
+				if tps.At(i).Obj().Name() == text {
+					return tps.At(i)
+				}
+			}
+		}
+	}
+	return nil
+}
+
 func (fc *FnCtx) resolveType0(text string, pkg *types.Package) types.Type {
+	if tp := fc.typeParamNamed(text); tp != nil {
+		return tp
+	}
 	switch {
 	case strings.HasPrefix(text, "*"):
 		if e := fc.resolveType0(text[1:], pkg); e != nil {
